@@ -1,29 +1,47 @@
 #!/usr/bin/env python3
-import os, sys, glob
+"""setup_cmd: offline build of Base, every property's Coq project, model driver and harness."""
+import os, sys, glob, time
+import concurrent.futures as cf
 sys.path.insert(0, os.path.dirname(os.path.abspath(__file__)))
 import vlib
+t0 = time.time()
 rc, out = vlib.build_base()
-print('Base', rc)
+print('Base', rc, flush=True)
 if rc != 0:
     print(out[-3000:]); sys.exit(1)
-bad = 0
 only = sys.argv[1:]
+pids = []
 for d in sorted(glob.glob(os.path.join(vlib.VERIF, 'props', 'C*'))):
     pid = os.path.basename(d)
     if only and pid not in only:
         continue
-    if not os.path.exists(os.path.join(d, 'prop.py')):
-        continue
-    cfg = vlib.load_prop(pid)
-    if hasattr(cfg, 'gen_consts'):
-        err = cfg.gen_consts(vlib)
-        if err:
-            print(pid, 'gen_consts:', err[-500:]); bad += 1
-    c = vlib.coq_check(pid, timeout=int(getattr(cfg, 'COQ_TIMEOUT', 1500)))
-    drv, derr = vlib.build_model_driver(pid) if c['ok'] else (None, 'coq failed')
-    h, herr = vlib.build_harness(pid, cfg)
-    print(pid, 'coq', 'ok' if c['ok'] else c['failed'], '| driver', 'ok' if drv else derr[-300:],
-          '| harness', 'ok' if h else herr[-300:])
-    if not (c['ok'] and drv and h):
-        bad += 1
-sys.exit(1 if bad else 0)
+    if os.path.exists(os.path.join(d, 'prop.py')) and os.path.exists(os.path.join(d, 'coq', 'Properties.v')):
+        pids.append(pid)
+
+def one(pid):
+    try:
+        cfg = vlib.load_prop(pid)
+        msg = []
+        if hasattr(cfg, 'gen_consts'):
+            err = cfg.gen_consts(vlib)
+            if err:
+                msg.append('gen_consts: ' + err[-500:])
+        c = vlib.coq_check(pid, timeout=int(getattr(cfg, 'COQ_TIMEOUT', 1500)))
+        drv, derr = vlib.build_model_driver(pid) if c['ok'] else (None, 'coq failed')
+        h, herr = vlib.build_harness(pid, cfg)
+        ok = c['ok'] and drv and h and not msg
+        return pid, ok, '%s coq %s | driver %s | harness %s %s' % (
+            pid, 'ok' if c['ok'] else c['failed'], 'ok' if drv else derr[-300:],
+            'ok' if h else herr[-300:], ' '.join(msg))
+    except Exception as e:
+        return pid, False, '%s exception %r' % (pid, e)
+
+bad = 0
+with cf.ThreadPoolExecutor(5) as ex:
+    for pid, ok, line in ex.map(one, pids):
+        print(line, flush=True)
+        if not ok:
+            bad += 1
+print('setup done in %.0fs, %d failing' % (time.time() - t0, bad))
+# a property whose build fails here is reported by its own check; setup itself only fails on Base
+sys.exit(0)
